@@ -26,6 +26,7 @@ EXPLANATION += ' R06.13: mapping keys read off args_with_defaults are names (two
 EXPLANATION += ' R06.12: the positional part of a rebuilt call is cut short only when no surplus positional arguments follow.'
 EXPLANATION += ' R06.10: a `col_offset`/`end_col_offset` of an AST node (UTF-8 bytes) reaches a character offset only through codeanalyze.column_to_offset; it is otherwise only compared, or is the start column of a node tested to be a statement. R06.11: a function that remembers its answer under a key reads, in the computation of the remembered value, nothing of its parameters that the key does not contain (followed into the helpers it calls).'
 EXPLANATION += " R06.15: the readers of calls and definitions remove exactly the star prefix their test established (the writer puts exactly that prefix back)."
+EXPLANATION += " R06.16: inside the loop over the files of a refactoring no handler swallows an error (a file is never silently left out of a multi-file change)."
 ASSUMPTIONS = ["alignment rule of the language reference as recorded in sa/grammar.py DEFAULT_ALIGNMENT",
                "a node of the analysed program = anything derived from self.ast / ast.parse(...) inside the parser classes"]
 
@@ -316,6 +317,9 @@ def check(ctx, res) -> None:
 
     position_pair_rule(ctx, res, "R06.14", ("rope.refactor.occurrences", "rope.refactor.functionutils", "rope.base.evaluate", "rope.refactor.patchedast", "rope.base.codeanalyze"))
     _star_prefix_symmetry_rule(ctx, res)
+    from .common import per_file_no_skip_rule as _pf
+
+    _pf(ctx, res, "R06.16", ('rope.refactor.change_signature', 'rope.refactor.introduce_parameter'))
 
 
 def _surplus_positionals_rule(ctx, res) -> None:
